@@ -55,4 +55,19 @@ def goodOps : List Op → Doc → List Op
     | (.ok _, d') => op :: goodOps ops d'
     | (.error _, d') => goodOps ops d'
 
+def Op.path : Op → Text
+  | .set p _ => p
+  | .rm p => p
+
+/-- the path of the operation carries no `@` scope selector (`_split_scope_npath` returns `None`) -/
+def Op.plain (op : Op) : Prop := op.path.head? ≠ some '@'
+
+instance (op : Op) : Decidable op.plain := by unfold Op.plain; infer_instance
+
+/-- did this step of a trace succeed? -/
+def isOk (r : Except Err Unit × Doc) : Bool :=
+  match r.1 with
+  | .ok _ => true
+  | .error _ => false
+
 end Nima
